@@ -2,7 +2,7 @@ INIT Init
 NEXT Next
 CONSTANTS
  MaxItems = 3
- MaxLen = 4
+ MaxLen = 3
 INVARIANT FirstIffDeclarative
 INVARIANT SearchIsLeftmost
 INVARIANT OneTurn
